@@ -193,9 +193,30 @@ func c01WriteInPlace(buf []byte, it c01Item) int {
 	case 5:
 		return p.WriteDouble(buf, math.Float64frombits(it.bits))
 	case 6:
-		return p.WriteBinary(buf, it.bs)
+		// the in-place family has two entry points per string kind: WriteBinary and
+		// WriteBinaryNocopy with a nil direct writer (what FastWrite uses); they must agree byte for
+		// byte, so the second is run on a twin buffer and, if it differs, ITS result is what is reported
+		n := p.WriteBinary(buf, it.bs)
+		twin := append([]byte(nil), buf...)
+		for i := range twin[:min(len(twin), n)] {
+			twin[i] ^= 0x5a
+		}
+		if n2 := p.WriteBinaryNocopy(twin, nil, it.bs); n2 != n || string(twin[:min(len(twin), n)]) != string(buf[:min(len(buf), n)]) {
+			copy(buf, twin)
+			return n2
+		}
+		return n
 	case 7:
-		return p.WriteString(buf, string(it.bs))
+		n := p.WriteString(buf, string(it.bs))
+		twin := append([]byte(nil), buf...)
+		for i := range twin[:min(len(twin), n)] {
+			twin[i] ^= 0x5a
+		}
+		if n2 := p.WriteStringNocopy(twin, nil, string(it.bs)); n2 != n || string(twin[:min(len(twin), n)]) != string(buf[:min(len(buf), n)]) {
+			copy(buf, twin)
+			return n2
+		}
+		return n
 	case 8:
 		return p.WriteFieldBegin(buf, thrift.TType(it.z), int16(it.z2))
 	case 9:
